@@ -194,6 +194,10 @@ def check(prog, rep):
     okc = bool(conv) and all(always_reraises(h) for h in conv)
     r4.add("conversion", okc, f"main_driver handlers {[','.join(handler_classes(h)) for h in conv]} re-raise on every path", wmd)
 
+    from . import c02, shared
+    r8 = rep.rule("R8", "the integrality guard is a must-pass placed after every parameter assignment", floor=4)
+    c02.check_guard(prog, r8)
+    shared.rule_patch_isolation(prog, rep, "R7")
     # ------------------------------------------------------------------ R6
     r6 = rep.rule("R6", "a structure without atoms fails before any output on every path", floor=1)
     pi = order.get("print_pqr", (None,))[0]
